@@ -411,8 +411,10 @@ def data_net_default_link_pingpong():
             e = net.send(w, other, "hop", payload={"n": n - 1})
             return [e]
         a, b = _Proc("a", peer), _Proc("b", peer)
-        # default link has a single egress: route a->b and b->a explicitly with copies of it
-        net.add_bidirectional_link(a, b, _link("ab", lat))
+        # a -> b has no route of its own and falls back to the default link (whose egress is b);
+        # b -> a is an explicit one-way route
+        net.default_link.egress = b
+        net.add_link(b, a, _link("ba", lat))
         _run([net, a, b], [_msg(0.25, net, a, b, "hop", n=300)], end=(None if lat else 1.0))
         out[str(lat)] = cnt[0]
     return out
@@ -1091,13 +1093,16 @@ def data_soft_ttl_cache_boundaries():
     reads during a refresh, capacity 2."""
     from happysimulator.components.datastore.kv_store import KVStore
     from happysimulator.components.datastore.soft_ttl_cache import SoftTTLCache
+    from happysimulator.core.temporal import Duration
     out = {}
-    for end in (None, 3.0):
+    for end, soft_ttl, hard_ttl in ((None, H3, ONE001), (3.0, H3, ONE001),
+                                    (None, Duration(0), Duration.from_seconds(THIRD))):   # always stale
         _seed(52)
         kv = KVStore("kv", read_latency=THIRD / 10, write_latency=H3 / 10)
         for k in "abc":
             kv.put_sync(k, k.upper())
-        c = SoftTTLCache("sttl", kv, soft_ttl=H3, hard_ttl=ONE001, cache_capacity=2, cache_read_latency=NS)
+        c = SoftTTLCache("sttl", kv, soft_ttl=soft_ttl, hard_ttl=hard_ttl, cache_capacity=2,
+                         cache_read_latency=NS)
         res = []
 
         def read(w, ev, c=c, res=res):
@@ -1118,8 +1123,8 @@ def data_soft_ttl_cache_boundaries():
         evs += [_ev(0.5, ws[0], k="b"), _ev(0.5, ws[1], k="c"), _ev(0.5 + NS, ws[2], k="zz"),
                 _ev(0.7, ws[3], body=write, k="a"), _ev(2.5, ws[0], k="a"), _ev(2.5, ws[1], k="a")]
         _run([kv, c, *ws], evs, end=end, poke=[kv])
-        out[str(end)] = [c.stats.fresh_hits, c.stats.stale_hits, c.stats.hard_misses,
-                         c.stats.background_refreshes]
+        out[f"{end}/{soft_ttl}"] = [c.stats.fresh_hits, c.stats.stale_hits, c.stats.hard_misses,
+                                    c.stats.background_refreshes]
     return out
 
 
